@@ -247,6 +247,11 @@ def call_interval(t, iv, b, depth):
                 lo = parse_value_range(kind, bits, wi[1])
                 return lo
         return rng
+    m = re.fullmatch(r"core::num::<impl (u8|u16|u32|u64|u128|usize)>::saturating_sub", callee)
+    if m and len(args) == 2:
+        ia, ib = iv.interval(args[0], b, depth + 1), iv.interval(args[1], b, depth + 1)
+        if ia is not None and ib is not None:
+            return (max(0, ia[0] - ib[1]), max(0, ia[1] - ib[0]))
     if callee == "df::assembler::Assembler::offset":
         r = assembler_offset_interval(t, iv, b, depth)
         return r if r is not None else (0, ISIZE_MAX)
@@ -442,6 +447,17 @@ def projection_interval(t, iv, b, depth):
         if pair.args[1] == 0 and pair.args[0].op == "downcast" and pair.args[0].args[1] == 1:
             c = pair.args[0].args[0]
             if c.op == "call" and c.args[0] == "<core::iter::Enumerate<I> as core::iter::Iterator>::next" and t.args[1] == 0:
+                # index < number of items of the underlying iterator: bounded by the container's capacity when known
+                src = iterator_source(c, fa) if len(c.args) >= 4 and c.args[2] == id(fa.fn) else None
+                if src is not None:
+                    v = src[0]
+                    while v.op == "call" and v.args[0] in (INTO_ITER, "core::iter::Iterator::enumerate"):
+                        v = v.args[1][0]
+                    if v.op == "call" and v.args[0] in ("util::data_vec::DataVec::<T, N>::iter", "util::data_vec::DataVec::<T, N>::iter_mut",
+                                                        "tinyvec::ArrayVec::<A>::iter", "util::Df88591String::<N>::iter"):
+                        cap = capacity_of_type(obj_type(v.args[1][0]))
+                        if cap is not None and cap >= 1:
+                            return (0, cap - 1)
                 return (0, ISIZE_MAX - 1)
     return None
 
@@ -458,6 +474,20 @@ def iterator_source(call_next, fa):
     real = [d for d in defs if d[2] != "borrow"]
     if len(real) != 1:
         return None
+    # every `&mut X` must be the one feeding this very next() call: nothing else (nth, skip, by_ref, a second next
+    # site) may advance or replace the iterator
+    nb = call_next.args[3] if len(call_next.args) >= 4 else None
+    for d in defs:
+        if d[2] == "borrow" and d[0] != nb:
+            return None
+    # shared borrows / moves of the iterator into other calls (e.g. `it.clone()`, passing it on) are not accepted either
+    f = fa.fn
+    for b, t in f.calls():
+        if b == nb or b == real[0][0]:
+            continue
+        for a in t["args"]:
+            if a["k"] in ("copy", "move") and a["place"]["local"] == X:
+                return None
     return fa.defterm(X, real[0][0], real[0][1], real[0][2]), real[0]
 
 
